@@ -210,3 +210,18 @@ CHECKS["C08"] = {
     "note": "Quick tier covers a sample of the family; const fields excluded. Trusted: TLC, gen/struct_family.py, "
             "harness/c08_driver.cpp, vm backend, g++ 12.",
 }
+
+CHECKS["C09"] = {
+    "technique": "TLA+ Model of the copier's steps vs an adversary (Copy.tla), all interleavings by TLC; every schedule "
+                 "replayed on the real copy_and_verify family through the RLBOX_VERIF_YIELD hook; TLC trace validation "
+                 "(CopyAllowed)",
+    "text": "TLC explores every interleaving of the transcribed steps of each copy_and_verify variant (strlen, range check, "
+            "per-element reads, forced terminator, verifier) with up to two adversary writes over 3-4 source cells, proves "
+            "that what the verifier sees was taken before it started, is stable, and that strings are terminated within the "
+            "range-checked length; every schedule (tens of thousands) is replayed on the real code - the installed hook "
+            "performs exactly the scripted writes at the scripted points on real sandbox memory - for string (unique_ptr "
+            "and std::string verifiers), range (short, long), array, struct and copy_memory_or_deny_access, and TLC judges "
+            "the address class, content, and post-overwrite content of the object the verifier received.",
+    "note": "Interleavings are controlled only at the hook points between RLBox's own reads. Needs the verif-hook commit "
+            "(guard ALLENABY_RLBOX_VERIF). Trusted: TLC, harness/c09_driver.cpp, vm backend, g++ 12.",
+}
